@@ -26,6 +26,17 @@ CHECKS = {
              "diagnostics are attributed to generated cases by source line."),
 }
 
+CHECKS["C16"] = dict(
+    technique="interprocedural typestate automaton over the CFGs of every dispatch instantiation "
+              "(OK-report count vs fatal reports vs user actions), argument data-flow, who-may-access",
+    text="On every path of every instantiation of the mock-call dispatch (all branches, callees inlined by "
+         "summaries, virtual calls by class-hierarchy analysis) an accepted call sends exactly one OK report "
+         "before its first action and a call that ends in a fatal report sends none; the OK text is the "
+         "selected expectation's own name field; only set_reporter writes the reporter objects and it returns "
+         "the exchanged value. Holds for all histories because the CFG does not depend on the history.",
+    design_ref="DESIGN.md section 4, C16",
+    note="Not decided: what an installed reporter does with the text.")
+
 NOT_APPLICABLE = {}
 
 
@@ -58,7 +69,7 @@ def main():
         "hooks": {
             "guard": "TROMPELOEIL_VERIF",
             "enable": "no hooks: the extractor plugin reads the unmodified headers of /repo/include",
-            "baseline_off_cmd": "cmake --build /repo/_build && ctest --test-dir /repo/_build -j8 --timeout 900",
+            "baseline_off_cmd": "cmake --build /repo/_build && /repo/_build/test/self_test && /repo/_build/test/thread_terror && /repo/_build/test/custom_recursive_mutex",
             "source_commits": [],
             "add_only": True,
         },
